@@ -387,6 +387,8 @@ def judge(ctx, label, traces, nf, defn, world):
     byid = {t["id"]: t for t in traces}
     drift = 0
     for p in res.printed:
+        if p and p[0] == "FAIL" and p[2] in ("obs-set", "config"):
+            raise MachineryError("trace %r is malformed: clause %s at call %d" % (p[1], p[2], p[3]))
         if p and p[0] == "FAIL":
             t = byid[p[1]]
             step = p[3]
